@@ -96,6 +96,7 @@ func New(seed uint64, cfg gw.Config) (*Env, error) {
 
 func (e *Env) Close() {
 	e.S.Uninstall()
+	resetProxyHooks()
 	if e.prevTransport != nil {
 		http.DefaultTransport = e.prevTransport
 	}
